@@ -96,6 +96,11 @@ func (w *Worker) GetOutput() (model.StepVector, error) {
 		return model.StepVector{}, w.ctx.Err()
 	default:
 		verifhook.Point("worker.output", w.workerID)
-		return <-w.output, nil
+		// The worker closes its output when the context is cancelled.
+		out, ok := <-w.output
+		if !ok {
+			return model.StepVector{}, w.ctx.Err()
+		}
+		return out, nil
 	}
 }
